@@ -557,8 +557,7 @@ Mode(name, configs, shapes, uniform, maxf, heavy, emitmod) ==
 
 ShapesSubsetsQuick == {Sh("multi", <<17, 2>>), Sh("single", <<5>>)}
 ShapesSubsetsP1    == {Sh("multi", <<12>>)}
-ShapesSubsetsP     == {Sh("multi", <<18>>), Sh("multi", <<3, 10>>), Sh("multi", <<17, 2>>),
-                       Sh("multi", <<16, 16>>), Sh("single", <<5>>)}
+ShapesSubsetsP     == {Sh("multi", <<18>>), Sh("multi", <<3, 10>>), Sh("multi", <<17, 2>>), Sh("single", <<5>>)}
 ShapesSubsets      == {Sh("multi", <<1>>), Sh("multi", <<18>>), Sh("multi", <<3, 10>>), Sh("multi", <<17, 2>>),
                        Sh("multi", <<16, 16>>), Sh("single", <<5>>), Sh("single", <<17>>), ShDup(<<4, 4>>)}
 \* sizes beyond 18 digits: 2^31 and 2^32 have 10 digits, 2^63 and 10^18 have 19
@@ -573,7 +572,8 @@ ShapesHist         == {Sh("multi", <<2>>), Sh("multi", <<5, 2>>)}
 ShapesAlias        == {ShDup(<<5, 5>>), ShDup(<<2, 2, 2>>)}
 ShapesLive         == {Sh("multi", <<5, 2>>)}
 
-HistConfigs  == {<<"Dsc", "-">>, <<"Changes", "-">>, <<"Release", Apt>>, <<"Release", Dak>>}
+HistConfigs  == {<<"Dsc", "-">>, <<"Release", Apt>>, <<"Release", Dak>>}
+PairConfigs  == SmallConfigs \ {<<"BuildInfo", "-">>}
 AliasConfigs == {<<"Dsc", "-">>, <<"Release", Dak>>, <<"PdiffIndex", "-">>}
 LiveConfigs  == {<<"Release", Apt>>, <<"Release", Dak>>, <<"Release", "default">>, <<"PdiffIndex", "-">>, <<"Dsc", "-">>}
 \* the other live objects: <<class, value assigned to its size_field_behavior ("-": none)>>
@@ -586,7 +586,7 @@ LiveKindsT   == {"setbeh", "other", "setsize"}
 ModesQuick ==
   { Mode("subsets4", SmallConfigs, ShapesSubsets,      TRUE,  4,  TRUE,  1),
     Mode("records",  AllConfigs,   ShapesRecordsQuick, FALSE, 1,  TRUE,  1),
-    Mode("pairs",    SmallConfigs, ShapesPairsQuick,   FALSE, 2,  TRUE,  1),
+    Mode("pairs",    PairConfigs,  ShapesPairsQuick,   FALSE, 2,  TRUE,  1),
     HMode("hist",    HistConfigs,  ShapesHist,         FALSE, 1,  TRUE,  3, 2, {1, 7}, 4),
     HMode("histP",   PdiffConfig,  ShapesHist,         FALSE, 1,  TRUE,  3, 2, {1, 7}, 2),
     XMode("alias",   AliasConfigs, ShapesAlias,        FALSE, 1,  TRUE,  2, 2, {1, 7}, 2, {"setsize", "append"}, {"parsed"}, {}),
@@ -604,7 +604,7 @@ ModesThorough ==
     XMode("alias",   AllConfigs,   ShapesAlias,        FALSE, 1,  TRUE,  2, 2, {1, 7}, 4, {"setsize", "append", "delete"}, {"parsed", "built"}, {}),
     XMode("live",    LiveConfigs \cup {<<"Changes", "-">>}, ShapesLive, FALSE, 1, TRUE, 3, 2, {7}, 1, LiveKindsT, {"built", "parsed"}, LiveOthersT) }
 ModesThoroughP ==
-  { Mode("subsetsP", PdiffConfig,  ShapesSubsetsP,     TRUE,  14, TRUE,  5) }
+  { Mode("subsetsP", PdiffConfig,  ShapesSubsetsP,     TRUE,  14, TRUE,  4) }
 \* negative controls (small)
 ModesNegIterate   == { Mode("neg", AllConfigs,      ShapesSubsetsQuick, TRUE, 2, TRUE, 1) }
 ModesNegIterateOk == { Mode("neg", NoLookupConfigs, ShapesSubsetsQuick, TRUE, 4, TRUE, 1) }
